@@ -1,5 +1,5 @@
 (* C09 -- Retention removes only whole oldest segments, no more than the limits require. *)
-From LB Require Import Base.Prelude Log.Model Log.Retention Log.Proofs Log.RetentionProofs.
+From LB Require Import Base.Prelude Log.Model Log.Retention Log.Proofs Log.Refine Log.RetentionProofs Log.RetentionRepeat.
 Open Scope Z_scope.
 
 (* Only complete segments from the oldest end are removed, and never the newest one. *)
@@ -40,6 +40,71 @@ Print Assumptions C09_content_contiguous_suffix.
 Theorem C09_cleaned_log_wf : forall lim ttl l, wf l -> wf (clean lim ttl l).
 Proof. exact clean_wf. Qed.
 Print Assumptions C09_cleaned_log_wf.
+
+(* Repeated cleans: a layout on which every configured limit already holds (or of which
+   only the newest segment is left) is a fixed point -- Clean removes nothing from it. *)
+Theorem C09_nothing_removed_when_limits_hold : forall lim ttl segs,
+  (length segs <= 1)%nat \/
+  ((0 < lim_msgs lim -> wsum s_count segs <= lim_msgs lim) /\
+   (0 < lim_bytes lim -> wsum s_pos segs <= lim_bytes lim) /\
+   (0 < lim_age lim -> unexpired_but_last ttl segs)) ->
+  retain lim ttl segs = segs.
+Proof. exact retain_fixpoint. Qed.
+Print Assumptions C09_nothing_removed_when_limits_hold.
+
+(* ... hence a second Clean under the same limits and clock removes nothing more (given
+   last-write times from one clock; C09_repeat_needs_one_clock shows the condition is needed). *)
+Theorem C09_repeated_clean_idempotent : forall lim ttl segs, ts_sorted segs ->
+  retain lim ttl (retain lim ttl segs) = retain lim ttl segs.
+Proof. exact retain_idempotent. Qed.
+Print Assumptions C09_repeated_clean_idempotent.
+
+Theorem C09_repeat_needs_one_clock : exists lim ttl segs,
+  retain lim ttl (retain lim ttl segs) <> retain lim ttl segs.
+Proof. exact retain_idempotent_needs_one_clock. Qed.
+Print Assumptions C09_repeat_needs_one_clock.
+
+(* Any number of cleans, each under its own limits and cut-off: what survives is still a
+   suffix of the original layout that keeps the newest segment. *)
+Theorem C09_repeated_cleans_suffix : forall (cs : list (limits * Z)) segs,
+  exists d, fold_left (fun s c => retain (fst c) (snd c) s) cs segs = skipn d segs /\
+            (segs <> [] -> (d < length segs)%nat).
+Proof. exact retains_suffix. Qed.
+Print Assumptions C09_repeated_cleans_suffix.
+
+(* Cleans that run while the log is written: a Clean leaves the log end, the HW and the
+   read-only flag alone, and the append that follows hands out the offsets and stores the
+   records it would have without the Clean -- only older content is missing in front. *)
+Theorem C09_clean_keeps_log_end : forall lim ttl l, wf l ->
+  active (clean lim ttl l) = active l /\ newest (clean lim ttl l) = newest l /\
+  l_hw (clean lim ttl l) = l_hw l /\ l_ro (clean lim ttl l) = l_ro l.
+Proof. exact clean_keeps_end. Qed.
+Print Assumptions C09_clean_keeps_log_end.
+
+Theorem C09_append_after_clean : forall maxb lim ttl l ms l' offs, wf l ->
+  append maxb false (clean lim ttl l) ms = Ok (l', offs) ->
+  wf l' /\ offs = zseq (newest l + 1) (length ms) /\
+  (exists n, all_recs l' = skipn n (all_recs l) ++ number (newest l + 1) ms) /\
+  newest l' = newest l + Z.of_nat (length ms).
+Proof. exact append_after_clean. Qed.
+Print Assumptions C09_append_after_clean.
+
+(* Every log reachable by any history of the writers' operations of C01 (appends, message
+   sets, truncations, reopen, HW moves) interleaved with cleans under any limits and
+   cut-offs is well formed; a writer's step changes the content as the abstract log says, a
+   Clean removes a prefix and nothing else. *)
+Theorem C09_histories_with_cleans_wf : forall maxb l, creachable maxb l -> wf l.
+Proof. exact creachable_wf. Qed.
+Print Assumptions C09_histories_with_cleans_wf.
+
+Theorem C09_step_with_cleans : forall maxb l c, wf l -> cop_valid l c ->
+  match c with
+  | CHop o => all_recs (cstep maxb l c) = spec_step l (all_recs l) o
+  | CClean _ _ => (exists n, all_recs (cstep maxb l c) = skipn n (all_recs l)) /\
+                  newest (cstep maxb l c) = newest l
+  end /\ l_hw l <= l_hw (cstep maxb l c).
+Proof. exact cstep_content. Qed.
+Print Assumptions C09_step_with_cleans.
 
 (* non-vacuity: three full segments and an active one; a message limit of 3 keeps two *)
 Example C09_example :
